@@ -25,13 +25,13 @@ PROPS = {
     },
     "C08": {
         "modules": ["Cose.Props.C08"],
-        "families": ["cbor", "map", "msg:wrongtype", "msg:gomap"],
+        "families": ["cbor", "map", "msg:wrongtype", "msg:gomap", "msg:C08"],
         "spec_ops": ["cbor.enc", "wire.wrongtype", "wire.badbucket", "wire.badpayload", "cbor.encdup", "wire.msgdup"],
         "n_quick": 8000, "n_thorough": 200000,
         "rule": "cbor.enc: random Go values (all integer kinds, nil/empty slices, nested CoseMaps of 0..320 int/text labels) encoded by the "
                 "library vs the Lean deterministic encoder; cbor.dec / map.unmarshal: random CBOR trees written by an independent "
                 "mini-encoder with non-shortest heads, indefinite lengths, duplicate keys, bad UTF-8, tags, exotic keys, then "
-                "truncation / bit-flip / insertion / huge-length mutations; distinct = distinct op line the model answered",
+                "truncation / bit-flip / insertion / huge-length mutations; distinct = distinct op line the model answered; msg:C08: foreign non-deterministically encoded messages of the six kinds decoded and re-encoded (the output is the deterministic encoding)",
         "trusted_base": ["model of fxamacker/cbor v2.7.0's accepted language (Cose.Cbor.Decode) tied by correspondence only",
                          "RFC 8949 section 4.2.1 reading (Cose.Cbor.Encode)"],
         "assumptions": ["floats, tags inside `any` values, negative integers below -2^63 are outside the model (answered `unmodelled`, counted)",
@@ -46,7 +46,7 @@ PROPS = {
         "n_quick": 3000, "n_thorough": 200000,
         "rule": "8 MAC algorithms x random keys (1/12 of wrong size 0..80) x message lengths covering every residue mod 16/64/128, 0, "
                 "and 65279..70000; each tag then verified as is / truncated / extended / bit-flipped / for other data / under another key; "
-                "library answer compared with the Lean HMAC-SHA2 and AES-CBC-MAC reference; results of earlier calls stay untouched by later ones (prim.mac2); a -race program with shared MACers; message and tag slices sit in larger buffers whose tails are checked afterwards; key objects lacking k",
+                "library answer compared with the Lean HMAC-SHA2 and AES-CBC-MAC reference; results of earlier calls stay untouched by later ones (prim.mac2); a -race program with shared MACers; message and tag slices sit in larger buffers whose tails are checked afterwards; key objects lacking k; patterned keys (all zero, all ones, 00..01, 80 00.., counting) for every algorithm in turn; prim.macalg: the key's alg member changed after construction",
         "trusted_base": ["Lean SHA-2 and AES reference cores (validated by FIPS/RFC KATs as #guard and by this differential run)",
                          "RFC 9053 tables 3 and 4 as transcribed in Props/C11.lean"],
         "assumptions": ["SHA-2 output lengths are hypotheses of hmac_tag_length", "unforgeability of HMAC/CBC-MAC is not a theorem"],
@@ -60,7 +60,7 @@ PROPS = {
         "n_quick": 2500, "n_thorough": 120000,
         "rule": "12 AEAD algorithms x random keys (wrong sizes 1/15) x nonces (wrong lengths 1/12) x plaintext and additional-data lengths "
                 "0..70 / block boundaries / 65279,65280,65281,65535,65536,65537,70000; each ciphertext then decrypted as is or with a "
-                "bit flipped in ciphertext / nonce / aad / key, truncated or extended; library vs Lean GCM, RFC 3610 CCM, RFC 8439; results of earlier calls and arguments stay untouched (prim.aead2), the key's alg changed after construction (prim.aeadalg); a -race program with shared Encryptors",
+                "bit flipped in ciphertext / nonce / aad / key, truncated or extended; library vs Lean GCM, RFC 3610 CCM, RFC 8439; results of earlier calls and arguments stay untouched (prim.aead2), the key's alg changed after construction (prim.aeadalg); a -race program with shared Encryptors; patterned keys and nonces for every algorithm in turn",
         "trusted_base": ["Lean AES, GHASH, ChaCha20, Poly1305 reference cores (KATs as #guard + this differential run)",
                          "RFC 3610 / RFC 9053 tables as transcribed in Constructions.lean and Props/C12.lean"],
         "assumptions": ["AEAD security (tag unforgeability) is not a theorem; uniqueness theorems reduce acceptance of a changed ciphertext to a tag collision"],
@@ -71,18 +71,18 @@ PROPS = {
         "spec_ops": ["prim.hkdf256", "prim.hkdf512", "prim.hkdfaes", "prim.hkdfaes.read"],
         "n_quick": 1500, "n_thorough": 60000,
         "rule": "secrets/salts incl. empty, info lengths 0..200 (every residue mod 16), output lengths 0..255*HashLen+1 incl. limits, "
-                "random read chunkings of the Go reader; library vs Lean RFC 5869 over HMAC-SHA-256/512 and over AES-CBC-MAC; every chunk buffer is overwritten before the next Read",
+                "random read chunkings of the Go reader; library vs Lean RFC 5869 over HMAC-SHA-256/512 and over AES-CBC-MAC; every chunk buffer is overwritten before the next Read; patterned secrets and salts",
         "trusted_base": ["Lean SHA-2 / AES reference cores", "RFC 5869 as transcribed in Constructions.lean"],
         "assumptions": ["the chunking law of the Go reader is established by correspondence (random chunkings), the prefix and limit laws by theorem"],
     },
     "C01": {
-        "modules": ["Cose.Props.C01", "Cose.Props.C01Enc", "Cose.Props.C01Sign", "Cose.Props.C01Mac", "Cose.Props.C01EncR", "Cose.Props.C01Forms", "Cose.Props.CwtEndToEnd"], "families": ["msg:C01", "msg:C06", "conv"], "spec_ops": ["conv.keyset", "conv.ed25519", "conv.ecdsa", "conv.ecdh", "conv.gen"],
+        "modules": ["Cose.Props.C01", "Cose.Props.C01Enc", "Cose.Props.C01Sign", "Cose.Props.C01Mac", "Cose.Props.C01EncR", "Cose.Props.C01Forms", "Cose.Props.C01Prot", "Cose.Props.CwtEndToEnd"], "families": ["msg:C01", "msg:C06", "conv"], "spec_ops": ["conv.keyset", "conv.ed25519", "conv.ecdsa", "conv.ecdh", "conv.gen"],
         "extras": [{"name": "race", "pkg": "./race", "build_flags": ["-race"], "args": ["-seed", "{seed}", "-n", "{n}", "-only", "Mac0/,Sign1/,Encrypt0/"],
                     "n_quick": 30, "n_thorough": 400, "timeout": 3000}],
         "n_quick": 500, "n_thorough": 60000,
         "rule": "6 kinds x 24 algorithms x payload {nil, empty, raw of every CBOR length class, pre-encoded CBOR, typed map} x header maps (int/text labels; int, bstr, tstr, bool, array, nested-map values) "
                 "x external data {nil, empty, random} x 1-3 signers / 1-3 recipients incl. one nesting level; each produced message consumed tagged, untagged and CWT-tagged; "
-                "byte-exact comparison of the produced message (deterministic algorithms), of the bytes handed to the primitive and of the decoded view; payloads of named byte-slice types (mode named); caller-supplied protected buckets holding IV / Partial IV",
+                "byte-exact comparison of the produced message (deterministic algorithms), of the bytes handed to the primitive and of the decoded view; payloads of named byte-slice types (mode named); caller-supplied protected buckets holding IV / Partial IV; at fixed slots for every kind: an unprotected bucket naming a kid of the caller's own, the counterpart key held under another kid; history ops (msg.reuse, seq, msg.produce2) on one message object",
         "trusted_base": ["model of the six message kinds (Cose.Msg.Model) hand-written, tied by correspondence; to-be-authenticated literals regenerated", "Lean crypto references for predicting verdicts"],
         "assumptions": ["signature correctness (SigCorrect) for ECDSA / Ed25519: assumed in the theorem, cross-checked by the Lean EC reference in the run"],
     },
@@ -92,7 +92,7 @@ PROPS = {
                     "n_quick": 30, "n_thorough": 400, "timeout": 3000}],
         "n_quick": 400, "n_thorough": 50000,
         "rule": "valid Sign1/Sign/Mac0/Mac messages, then per message 4 alterations: bit flip at a random position, truncation, trailing byte, byte replacement, other external data, "
-                "other key, splice of one top-level member from an independently produced message, change of kind (tag/prefix swap); model (with Lean HMAC/CBC-MAC/ECDSA/Ed25519) predicts accept/reject exactly",
+                "other key, splice of one top-level member from an independently produced message, change of kind (tag/prefix swap); model (with Lean HMAC/CBC-MAC/ECDSA/Ed25519) predicts accept/reject exactly; for every message the protected bucket re-encoded with a non-shortest head, for every COSE_Sign the last signature's protected bucket extended with the signature kept (three signers, two of one algorithm, at fixed slots)",
         "trusted_base": ["model of the six message kinds (Cose.Msg.Model) hand-written, tied by correspondence; to-be-authenticated literals regenerated", "Lean crypto references for predicting verdicts"],
         "assumptions": ["existential unforgeability of the primitives is assumed; the theorems reduce acceptance of a changed authenticated item to a forgery"],
     },
@@ -102,12 +102,14 @@ PROPS = {
                     "n_quick": 30, "n_thorough": 400, "timeout": 3000}],
         "n_quick": 400, "n_thorough": 50000,
         "rule": "valid Encrypt0/Encrypt messages over 12 AEADs, then alterations as for C02 (ciphertext, IV, protected bytes, prefix, shape, key, external data); after a failed Decrypt the harness "
-                "inspects the message object's Payload (PAYLOAD-LEAKED is reported if it is not the zero value)",
+                "inspects the message object's Payload (PAYLOAD-LEAKED is reported if it is not the zero value); the protected bucket re-encoded with a non-shortest head (same map, other octets) for every message",
         "trusted_base": ["model of the six message kinds (Cose.Msg.Model) hand-written, tied by correspondence; to-be-authenticated literals regenerated", "Lean crypto references for predicting verdicts"],
         "assumptions": ["AEAD security assumed; uniqueness theorems (C12) reduce an accepted change to a tag forgery"],
     },
     "C04": {
         "modules": ["Cose.Props.C04", "Cose.Props.History", "Cose.Props.KdfRoundtrip"], "families": ["msg:C04", "kdf"], "spec_ops": ["msg.consume", "msg.produce", "kdf.enc"],
+        "extras": [{"name": "race", "pkg": "./race", "build_flags": ["-race"], "args": ["-seed", "{seed}", "-n", "{n}", "-only", "Mac0/,Sign1/,Encrypt0/"],
+                    "n_quick": 30, "n_thorough": 400, "timeout": 3000}],
         "n_quick": 400, "n_thorough": 40000,
         "rule": "messages written by an independent mini-encoder with non-canonical protected buckets (non-shortest integers, reversed key order, explicit h'a0'), non-shortest heads, optional tags, "
                 "authenticated by the library's primitive over the RFC 9052 structure computed independently; recording Signer/Verifier/MACer/Encryptor wrappers expose the bytes handed to the primitive (tobe= / aad=), "
@@ -127,12 +129,12 @@ PROPS = {
         "modules": ["Cose.Props.C06"], "families": ["msg:C06", "prim:aead"], "spec_ops": ["wire.msgdup"],
         "n_quick": 500, "n_thorough": 60000,
         "rule": "Encrypt0/Encrypt x 12 AEADs x unprotected {none, IV of length n-1,n,n+1,1,0, Partial IV of length 0..n+2, both, ill-typed} x key Base IV {absent, right length, wrong lengths, ill-typed}; "
-                "recording Encryptor exposes the nonce on Encrypt and Decrypt; random nonces must be published in header 5 with the algorithm's length",
+                "recording Encryptor exposes the nonce on Encrypt and Decrypt; random nonces must be published in header 5 with the algorithm's length; msg.produce2: the message object has been through one encryption with a library-chosen nonce before",
         "trusted_base": ["model of the six message kinds (Cose.Msg.Model) hand-written, tied by correspondence; to-be-authenticated literals regenerated", "Lean crypto references for predicting verdicts"],
         "assumptions": ["non-repetition of crypto/rand output is not a theorem: proved instead that each encryption consumes its own block of the stream"],
     },
     "C09": {
-        "modules": ["Cose.Props.C09", "Cose.Props.C09Sign", "Cose.Props.KdfRoundtrip"], "families": ["msg:C09", "kdf", "claims", "dec"], "spec_ops": ["kdf.enc", "claims.enc", "dec.bytestr", "dec.keyjson"],
+        "modules": ["Cose.Props.C09", "Cose.Props.C09Sign", "Cose.Props.C09All", "Cose.Props.KdfRoundtrip"], "families": ["msg:C09", "kdf", "claims", "dec", "map"], "spec_ops": ["kdf.enc", "claims.enc", "dec.bytestr", "dec.keyjson"],
         "n_quick": 400, "n_thorough": 40000,
         "rule": "library-produced messages of the 6 kinds re-encoded (tagged and untagged input), RemoveCBORTag on tagged and CWT-tagged input; foreign non-canonical messages re-encoded then consumed again "
                 "(decode -> encode -> decode -> verify on the library, predicted by the model); the decoded object is independent of its input buffer and of other objects decoded from the same octets (buffer overwritten, header maps edited), and a Verify / Decrypt leaves its re-encoding unchanged (every kind x every algorithm at fixed slots)",
@@ -161,7 +163,7 @@ PROPS = {
         "modules": ["Cose.Props.C15"], "families": ["sig", "ecdh", "conv"], "spec_ops": ["conv.ed25519", "conv.ecdsa", "conv.ecdh", "conv.gen"],
         "n_quick": 500, "n_thorough": 40000,
         "rule": "generated Ed25519 / P-256 / P-384 / P-521 / X25519 keys (one third with leading-zero coordinates or scalars) in the forms private, private+public, public padded / stripped / over-padded, compressed; "
-                "ToPublicKey, ToCompressedKey, the key a verifier reports, mismatching embedded public keys, off-curve x; dumps compared byte for byte with the model",
+                "ToPublicKey, ToCompressedKey, the key a verifier reports, mismatching embedded public keys, off-curve x; dumps compared byte for byte with the model; every derivation leaves the source key as it was (members, Go types, order of key_ops), private keys with key.Ops values at fixed slots",
         "trusted_base": ["Lean curve arithmetic (KATs + differential run); key layer model tied by correspondence"],
         "assumptions": ["group law / point derivation correctness of Go and of the Lean reference assumed, compared against each other"],
     },
@@ -172,7 +174,7 @@ PROPS = {
         "n_quick": 500, "n_thorough": 40000,
         "rule": "ES256/384/512 + EdDSA x keys incl. leading-zero scalars/coordinates x messages 0..70000 bytes; library-made signatures (and r at the codec boundary values 1, 2^k, n-1) verified by the Lean "
                 "ECDSA / Ed25519 reference under public keys in derived / exported / compressed form; every signature then mutated (bit flip, truncation, extension, leading zero, random) and the verdicts compared; "
-                "Ed25519 signatures byte-identical; the r||s codec alone (sig.decode / sig.encode: lengths around 2n, halves with leading zeros, integers at the size limit); a -race program with shared signers / verifiers; at fixed slots: messages of 4096..32768 octets, the nil message, the ASN.1 DER form of a valid (r, s), OKP keys with an ill-formed d; arguments sit in larger buffers whose tails are checked afterwards",
+                "Ed25519 signatures byte-identical; the r||s codec alone (sig.decode / sig.encode: lengths around 2n, halves with leading zeros, integers at the size limit); a -race program with shared signers / verifiers; at fixed slots: messages of 4096..32768 octets, the nil message, the ASN.1 DER form of a valid (r, s), OKP keys with an ill-formed d; arguments sit in larger buffers whose tails are checked afterwards; messages that have the length of a digest (32 / 48 / 64 / 20 / 28), every algorithm in turn",
         "trusted_base": ["Lean ECDSA / Ed25519 / SHA-2 reference (RFC 6979, RFC 8032 KATs + this run)"],
         "assumptions": ["signature correctness and unforgeability are not theorems"],
     },
@@ -192,7 +194,7 @@ PROPS = {
         "extras": [{"name": "race", "pkg": "./race", "build_flags": ["-race"], "args": ["-seed", "{seed}", "-n", "{n}"],
                     "n_quick": 60, "n_thorough": 1500, "timeout": 3000}],
         "rule": "-race build: 16 goroutines x n operations x 32 shared instances (24 algorithm implementations, an ECDHer per curve, the Key.MACer / Encryptor / Signer+Verifier factories on a shared key, "
-                "one Validator); every result compared with the sequential one (deterministic operations byte-equal, ECDSA signatures verified); distinct = total operations / goroutines; first look-ups of alg-less keys from all goroutines at once (sequential reference computed afterwards); a caller rewriting its ValidatorOpts while others validate",
+                "one Validator); every result compared with the sequential one (deterministic operations byte-equal, ECDSA signatures verified); distinct = total operations / goroutines; first look-ups of alg-less keys from all goroutines at once (sequential reference computed afterwards); a caller rewriting its ValidatorOpts while others validate; the concurrent phase runs first on the instances as constructed, the sequential reference afterwards; look-ups in Verifiers / Signers / KeySet of 24 keys",
         "trusted_base": ["extractor footprint classifier (typed AST) and the allow-list of external callees in Props/C19.lean", "Go race detector (search support only)"],
         "assumptions": ["the Go memory model, the scheduler and the thread-safety of crypto/* objects held in fields (cipher.Block) are assumed, not modelled; a theorem cannot exhibit a race"],
     },
